@@ -1187,10 +1187,17 @@ class Context:
                 vm.globals = ctx._globals
                 vm.nested = True
                 outer = ctx._current_vm
-                return vm.run(
-                    bytecode_module,
-                    start_time=outer.start_time if outer is not None else None,
-                )
+                if outer is not None:
+                    # One evaluation, one budget of host recursion
+                    vm.native_depth = outer.native_depth
+                vm.enter_native(2)
+                try:
+                    return vm.run(
+                        bytecode_module,
+                        start_time=outer.start_time if outer is not None else None,
+                    )
+                finally:
+                    vm.native_depth[0] -= 2
             except (JSError, _ScriptThrow):
                 # Syntax errors, script exceptions and limit errors keep their
                 # identity: the caller's interpreter makes them catchable (or not)
